@@ -468,7 +468,7 @@ def relabel(y):
 
 def random_scenario(rng, kind, metric="euclidean", n=None, nq=5, lattice=False, dup=False, max_k=None, min_k=None, mode=None, positive=False, classes=None, nval=None):
     np = _np()
-    n = n or rng.randrange(4, 13)
+    n = n or rng.choice([2, 3, 3] + list(range(4, 13)) * 2)
     dim = rng.randrange(1, 4)
     kcls = min(classes or rng.choice([2, 2, 3]), n)
     y = relabel([rng.randrange(kcls) for _ in range(n)])
